@@ -214,6 +214,58 @@ func (p *c05Pkg) storeCalls(fn string) []string {
 	return res
 }
 
+// c05Expr renders an expression including call arguments (main.go's exprString drops them)
+func c05Expr(e ast.Expr) string {
+	if c, ok := e.(*ast.CallExpr); ok {
+		var args []string
+		for _, a := range c.Args {
+			args = append(args, c05Expr(a))
+		}
+		return exprString(c.Fun) + "(" + strings.Join(args, ", ") + ")"
+	}
+	return exprString(e)
+}
+
+// storeCallKeys lists `accessor.Method(<key expression>)` for the calls r.<accessor>().<Method>(key, …) in fn, in source order
+func (p *c05Pkg) storeCallKeys(fn string) []string {
+	fd := p.funcs[fn]
+	if fd == nil || fd.Body == nil {
+		return []string{fn + ":MISSING"}
+	}
+	var res []string
+	ast.Inspect(fd.Body, func(m ast.Node) bool {
+		if x, ok := m.(*ast.CallExpr); ok {
+			if sel, ok := x.Fun.(*ast.SelectorExpr); ok {
+				if inner, ok := sel.X.(*ast.CallExpr); ok {
+					if isel, ok := inner.Fun.(*ast.SelectorExpr); ok && strings.HasSuffix(isel.Sel.Name, "Store") && len(inner.Args) == 0 && len(x.Args) > 0 {
+						res = append(res, isel.Sel.Name+"."+sel.Sel.Name+"("+c05Expr(x.Args[0])+")")
+					}
+				}
+			}
+		}
+		return true
+	})
+	return res
+}
+
+// assignedFrom returns the right-hand side of the first assignment in fn whose first left-hand side is `name`
+func (p *c05Pkg) assignedFrom(fn, name string) string {
+	fd := p.funcs[fn]
+	res := "NOT-FOUND"
+	if fd == nil || fd.Body == nil {
+		return res
+	}
+	found := false
+	ast.Inspect(fd.Body, func(m ast.Node) bool {
+		if as, ok := m.(*ast.AssignStmt); ok && !found && len(as.Lhs) > 0 && len(as.Rhs) > 0 && exprString(as.Lhs[0]) == name {
+			res = c05Expr(as.Rhs[0])
+			found = true
+		}
+		return true
+	})
+	return res
+}
+
 func extractC05() *lean {
 	l := newLean("C05", "NutsModel.C05.OneTime")
 	l.sb.WriteString("open Nuts.C05\n")
@@ -316,6 +368,17 @@ func extractC05() *lean {
 		calls := iam.storeCalls(c.fn)
 		l.def(c.name, "List String", leanStrList(calls), calls)
 	}
+	// under which key each consumer looks its secret up / registers it (the secret itself, nothing the requester can vary)
+	for _, c := range []struct{ name, fn string }{
+		{"keysCode", "handleAccessTokenRequest"}, {"keysReqObjGet", "RequestJWTByGet"}, {"keysReqObjPost", "RequestJWTByPost"},
+		{"keysVpNonce", "validatePresentationNonce"}, {"keysRedirect", "handleUserLanding"},
+		{"keysS2S", "validateS2SPresentationNonce"}, {"keysJti", "ValidateDPoPProof"}} {
+		keys := iam.storeCallKeys(c.fn)
+		l.def(c.name, "List String", leanStrList(keys), keys)
+	}
+	src := iam.assignedFrom("validateS2SPresentationNonce", "nonce")
+	l.def("s2sNonceSource", "String", fmt.Sprintf("%q", src), src)
+
 	// every function of the package that touches one of the one-time stores (a new consumer needs a model)
 	users := map[string]bool{}
 	for name := range iam.funcs {
